@@ -8,11 +8,14 @@ import (
 	"os"
 
 	"github.com/hashicorp/consul/internal/verifmc/c03"
+	"github.com/hashicorp/consul/internal/verifmc/c05"
 	"github.com/hashicorp/consul/internal/verifmc/c08"
 	"github.com/hashicorp/consul/internal/verifmc/c08r"
 	"github.com/hashicorp/consul/internal/verifmc/c09"
+	"github.com/hashicorp/consul/internal/verifmc/c10"
 	"github.com/hashicorp/consul/internal/verifmc/c11"
 	"github.com/hashicorp/consul/internal/verifmc/c12"
+	"github.com/hashicorp/consul/internal/verifmc/c13"
 	"github.com/hashicorp/consul/internal/verifmc/c16"
 	"github.com/hashicorp/consul/internal/verifmc/c17"
 	"github.com/hashicorp/consul/internal/verifmc/c19"
@@ -26,10 +29,13 @@ type checkDef struct {
 
 var checks = map[string]checkDef{
 	"C03": {"model_checking", c03.Run},
+	"C05": {"model_checking", c05.Run},
 	"C08": {"exploration", func(c *ev.Ctx) { c08.Run(c); c08r.Run(c) }},
 	"C09": {"exploration", c09.Run},
+	"C10": {"exploration", c10.Run},
 	"C11": {"model_checking", c11.Run},
 	"C12": {"exploration", c12.Run},
+	"C13": {"exploration", c13.Run},
 	"C16": {"fault_enumeration", c16.Run},
 	"C17": {"model_checking", c17.Run},
 	"C19": {"exploration", c19.Run},
